@@ -23,6 +23,8 @@ type c07Rule struct {
 	spec  int // 1 if $domain-specific
 	count int // number of modifiers written
 	feat  []int
+	// manual: written by hand, not built from the feature vector (feat is all zero)
+	manual bool
 }
 
 func (r *c07Rule) key() [3]int { return [3]int{r.class, r.spec, r.count} }
@@ -145,6 +147,26 @@ func c07Pool(quick bool) (pool []*c07Rule, rejected int) {
 		}
 	}
 	sparse(0, 0)
+	// generic rules with as many modifiers as the grammar allows (18 and 19): they
+	// must still rank below every $domain-specific rule of their class
+	for _, exc := range []string{"", "@@"} {
+		for _, imp := range []string{"", "important,"} {
+			text := exc + "||x.test^$" + imp + "script,image,stylesheet,object,subdocument,xmlhttprequest,media,font,websocket,ping,other,third-party,match-case,dnstype=A,ctag=pc,client=10.0.0.1,denyallow=x.com,domain=~a.com"
+			r, err := rules.NewNetworkRule(text, 1)
+			if err != nil {
+				panic(AlphabetRejected{Text: text, Err: err})
+			}
+			cr := &c07Rule{text: text, rule: r, count: 18, feat: make([]int, len(c07Features)), manual: true}
+			if imp != "" {
+				cr.count++
+				cr.class = 2
+			}
+			if exc != "" {
+				cr.class |= 1
+			}
+			pool = append(pool, cr)
+		}
+	}
 	return pool, rejected
 }
 
@@ -278,6 +300,9 @@ func init() {
 		// adding one modifier makes the rule strictly higher
 		var additions int64
 		for i, r := range pool {
+			if r.manual {
+				continue // the hand-written maximal rules have no feature vector
+			}
 			for slot := 1; slot < len(c07Features); slot++ {
 				var cands []int
 				switch {
